@@ -125,8 +125,10 @@ def oracle(ctx, extra):
             doc = extra[i]
         elif k < 0.5:
             doc = gen_docs.doc(r, plugins=P)
-        elif k < 0.65:
+        elif k < 0.6:
             doc = gen_docs.interaction_doc(r)
+        elif k < 0.7:
+            doc = gen_docs.wrapped_doc(r) if r.random() < 0.7 else gen_docs.tab_doc(r)
         elif k < 0.85:
             # dense in stop characters, white space and breaks
             doc = "".join(r.choice(["a", "b ", " ", "  ", "\n", "  \n", "\\\n", "\t", "*", "_", "`", "[", "]", "<", ">", "!", "~", "^", "$", "=",
@@ -155,7 +157,7 @@ def oracle(ctx, extra):
     fails = [f for f in fails if not f.get("class")] + known[:4]
     return {"evaluations": n, "distinct_nontrivial": len(seen), "failures": fails, "known_finding_instances": len(known),
             "known_by_class": {k: sum(1 for f in known if f["class"] == k) for k in {f["class"] for f in known}},
-            "rule": "documents: 50% generated with all plugin syntaxes, 15% interrupt/lazy fragments, 20% strings dense in stop "
+            "rule": "documents: 50% generated with all plugin syntaxes, 10% interrupt/lazy fragments, 10% wrapped paragraphs (continuation lines indented by 0-5 spaces or tabs, inline constructs straddling the line break) and tab-indented containers, 15% strings dense in stop "
                     "characters / white space / hard and soft breaks / URLs / entities, 15% noise; every 8th a showcase of one plugin's constructs with that plugin enabled (abbreviations with multi-word, prefix and stop-character keys, uses wrapped over two lines), every 16th a table-of-contents directive over headings of every form (also setext headings that span two lines); configurations: core (25%), "
                     "mistune.html's own set (15%), 1-8 random plugins; hard_wrap 35%, escape=False 25%; HTML compared with "
                     "plugins=P vs P+['speedup']; a difference is shrunk by delta debugging and classified by re-running with "
